@@ -504,6 +504,9 @@ func c04Sensitivity(run *ev.Run, tier string) (collections int, pairs int64) {
 		{"e/a", []string{"bc"}, false},
 		{"big", []string{big + "1", big + "2"}, false},
 		{"lnk", []string{"bc", "x"}, true},
+		// two names that are canonically equivalent in Unicode (precomposed / decomposed) and distinct on disk
+		{"caf\u00e9", []string{"bc", "x"}, false},
+		{"cafe\u0301", []string{"bc", "x"}, false},
 	}
 	root := filepath.Join(pool.Scratch, "sens")
 	type coll struct {
@@ -628,7 +631,9 @@ func c04LongLists(run *ev.Run) int64 {
 	for n := 0; n <= maxN; n++ {
 		sizes[n] = true
 	}
-	for _, n := range []int{8*runtime.NumCPU() - 1, 8 * runtime.NumCPU(), 8*runtime.NumCPU() + 1, 8*runtime.NumCPU() + 3, 16*runtime.NumCPU() + 5} {
+	for _, n := range []int{8*runtime.NumCPU() - 1, 8 * runtime.NumCPU(), 8*runtime.NumCPU() + 1, 8*runtime.NumCPU() + 3, 16*runtime.NumCPU() + 5,
+		// around sizes at which an implementation might start to batch, fold or spill
+		1023, 1024, 1025, 4095, 4096, 4097, 8200} {
 		sizes[n] = true
 	}
 	top := 0
@@ -660,6 +665,15 @@ func c04LongLists(run *ev.Run) int64 {
 		}
 		if d, _ := hashFn(rev); d != d0 {
 			run.Report(ev.Violation{Key: fmt.Sprintf("long-order %s n=%d", label, n), Class: "digest-depends-on-order", What: fmt.Sprintf("%s, %d files: reversing the list changes the digest", label, n), Case: map[string]any{"n": n, "mode": label}})
+		}
+		if n >= 1000 {
+			// the same list again: with this many files the order in which results arrive varies from call to call
+			for rep := 0; rep < 6; rep++ {
+				if d, _ := hashFn(l); d != d0 {
+					run.Report(ev.Violation{Key: fmt.Sprintf("long-repeat %s n=%d", label, n), Class: "same-files-different-digest", What: fmt.Sprintf("%s, %d files: two calls on the same unchanged list gave different digests", label, n), Case: map[string]any{"n": n, "mode": label}})
+					break
+				}
+			}
 		}
 		comparisons++
 		// change each single file in turn (all positions for short lists; first, last, middle and boundaries for long ones)
